@@ -38,6 +38,11 @@ Conversions == { <<"to_pxpy", "to_xy", 2>>, <<"to_ptphi", "to_rhophi", 2>>,
                  <<"to_ptphietaenergy", "to_rhophietat", 4>>, <<"to_ptphipzmass", "to_rhophiztau", 4>>,
                  <<"to_ptphithetamass", "to_rhophithetatau", 4>>, <<"to_ptphietamass", "to_rhophietatau", 4>> }
 
+\* keyword synonyms of the dimension-raising conversions to_Vector3D / to_Vector4D / to_3D / to_4D:
+\*   <<momentum spelling, geometric spelling, group>>
+Keywords == { <<"pz", "z", "lon">>, <<"e", "t", "tmp">>, <<"E", "t", "tmp">>, <<"energy", "t", "tmp">>,
+              <<"m", "tau", "tmp">>, <<"M", "tau", "tmp">>, <<"mass", "tau", "tmp">> }
+
 Az == {"xy", "rhophi"}   Lon == {"z", "theta", "eta"}   Tmp == {"t", "tau"}
 Systems == { <<a>> : a \in Az } \cup { <<a, l>> : a \in Az, l \in Lon } \cup { <<a, l, t>> : a \in Az, l \in Lon, t \in Tmp }
 Backends == {"obj", "np", "akarr", "akrec", "sympy"}
@@ -48,6 +53,9 @@ Uses == UNION { { [use |-> "get", syn |-> g[1], geo |-> g[2], sys |-> sy, backen
         \cup UNION { { [use |-> "set", syn |-> g[1], geo |-> g[2], sys |-> sy, backend |-> b] : sy \in SysFrom(g[3]), b \in {"obj", "np", "sympy"} } : g \in Setters }
         \cup { [use |-> "conv", syn |-> g[1], geo |-> g[2], sys |-> sy, backend |-> b] : g \in Conversions, sy \in Systems, b \in Backends }
         \cup { [use |-> "twin", syn |-> "momentum", geo |-> "generic", sys |-> sy, backend |-> b] : sy \in Systems, b \in Backends }
+        \* a keyword synonym is usable when the source lacks that group
+        \cup { [use |-> "kw", syn |-> k[1], geo |-> k[2], sys |-> sy, backend |-> b]
+                : k \in Keywords, sy \in { q \in Systems : Len(q) < 3 }, b \in Backends \ {"sympy"} }
 Init == u \in Uses
 Next == UNCHANGED u
 Spec == Init /\ [][Next]_u
@@ -59,5 +67,6 @@ Functional == \A g1 \in Getters, g2 \in Getters : g1[1] = g2[1] => g1 = g2
 NoGeometricOnLeft == \A g \in Getters \cup Setters : g[1] \notin {"x", "y", "rho", "phi", "z", "theta", "eta", "t", "tau"}
 SettersAreGetters == Setters \subseteq Getters
 ConversionsFunctional == \A c1 \in Conversions, c2 \in Conversions : (c1[1] = c2[1] \/ c1[2] = c2[2]) => c1 = c2
-TableOK == Functional /\ NoGeometricOnLeft /\ SettersAreGetters /\ ConversionsFunctional /\ Cardinality(Conversions) = 20
+KeywordsFunctional == \A k1 \in Keywords, k2 \in Keywords : k1[1] = k2[1] => k1 = k2
+TableOK == KeywordsFunctional /\ Functional /\ NoGeometricOnLeft /\ SettersAreGetters /\ ConversionsFunctional /\ Cardinality(Conversions) = 20
 =============================================================================
